@@ -10,6 +10,7 @@ struct wrap_http {
 	size_t streamlen;
 	const size_t * segs;		/* scripted segment sizes (0 = one EAGAIN) */
 	size_t nsegs;
+	size_t segrep;			/* size of every unscripted segment (0 = all the rest at once) */
 	int ending;			/* 'e' EOF, 'r' ECONNRESET, 's' stall */
 	size_t pos, seg_i, seg_left;
 	int sockerr;			/* answer of getsockopt(SO_ERROR) */
